@@ -44,6 +44,8 @@ def teardown(ctx):
 
 def cases(tier, seed):
     out = pool.pool_cases(tier, seed, ['c01', 'c02', 'c07', 'c08', 'c13', 'c03', 'c05', 'c06', 'c04', 'c09'], 250 if tier == 'quick' else 2000)
+    if True:
+        out.insert(0, pool.ambient_case(PID))
     DP = [(1, 1), (2, 2), (3, 1), (4, 3)] if tier == 'quick' else [(1, 1), (2, 1), (2, 2), (3, 3), (4, 1), (5, 2)]
     for (D, P) in DP:
         for shape in [(3,), (2, 2), (3, 3), ()]:
@@ -76,6 +78,12 @@ def _floordiv(ctx, p, rng):
 def run_case(ctx, case):
     if case['kind'] == 'pool':
         return pool.run_host(case)
+    if case['kind'] == 'ambient':
+        probe.S.suppress = True
+        try:
+            return pool.run_ambient(ctx, PID)
+        finally:
+            probe.S.suppress = False
     if case['kind'] == 'floordiv':
         return _floordiv(ctx, case['params'], gen.rng_of(case))
     p = case['params']
